@@ -59,3 +59,9 @@ func ref_SkipRegexpStructMembers(src Src) Dst {
 	dst.Meta.P = src.Meta.P
 	return dst
 }
+
+func ref_SkipThenCaseOff(dst *Dst, src *Src) {
+	dst.Meta.Tags = src.Meta.Tags
+	dst.Meta.Inner = src.Meta.Inner
+	dst.Meta.P = src.Meta.P
+}
